@@ -29,6 +29,10 @@ type World struct {
 	Shrinks func(script any) []any
 	// Sched picks the scheduler configuration (swarm); nil = default mix.
 	Sched func(c *Choice, script any) Config
+	// Stall reports whether the "stalled goroutine" fault may be injected for prop
+	// (simulated time passes while runnable goroutines stay parked; at most 12 times
+	// and ~1.3 s in total per run). Worlds whose oracle asserts exact timing say no.
+	Stall func(prop string) bool
 	// NontrivialProbe names the probe that marks a run as non-trivial for prop.
 	Nontrivial func(prop string, r *Result) bool
 }
@@ -96,31 +100,32 @@ func decodeChoices(n int, nz [][2]uint32) []uint32 {
 
 // WorkerOut is what one worker process reports to the driver.
 type WorkerOut struct {
-	Property     string            `json:"property"`
-	Tier         string            `json:"tier"`
-	Seed         uint64            `json:"seed"`
-	Worker       int               `json:"worker"`
-	Runs         int               `json:"runs"`
-	RunsByWorld  map[string]int    `json:"runs_by_world"`
-	Steps        int64             `json:"steps"`
-	Yields       int64             `json:"yields"`
-	Preempts     int64             `json:"preempts"`
-	SimSeconds   float64           `json:"sim_seconds"`
-	WallSeconds  float64           `json:"wall_seconds"`
-	Stalled      int               `json:"stalled"`
-	OverStep     int               `json:"over_step"`
-	Leaked       int               `json:"leaked"`
-	Nontrivial   int               `json:"nontrivial"`
-	Fingerprints []string          `json:"fingerprints"` // distinct (script,schedule) hashes of non-trivial runs
-	StateHashes  int               `json:"state_hashes"`
-	Probes       map[string]int    `json:"probes"`
-	Faults       map[string]int    `json:"faults"`
-	Samples      []json.RawMessage `json:"samples"`
-	Violations   []WorkerViolation `json:"violations"`
-	Known        map[string]int    `json:"known"`
-	DetChecks    int               `json:"determinism_rechecks"`
-	DetFailures  []string          `json:"determinism_failures"`
-	Error        string            `json:"error,omitempty"`
+	Property       string            `json:"property"`
+	Tier           string            `json:"tier"`
+	Seed           uint64            `json:"seed"`
+	Worker         int               `json:"worker"`
+	Runs           int               `json:"runs"`
+	RunsByWorld    map[string]int    `json:"runs_by_world"`
+	Steps          int64             `json:"steps"`
+	Yields         int64             `json:"yields"`
+	Preempts       int64             `json:"preempts"`
+	SimSeconds     float64           `json:"sim_seconds"`
+	WallSeconds    float64           `json:"wall_seconds"`
+	Stalled        int               `json:"stalled"`
+	OverStep       int               `json:"over_step"`
+	Leaked         int               `json:"leaked"`
+	Nontrivial     int               `json:"nontrivial"`
+	Fingerprints   []string          `json:"fingerprints"` // distinct (script,schedule) hashes of non-trivial runs
+	StateHashes    int               `json:"state_hashes"`
+	Probes         map[string]int    `json:"probes"`
+	Faults         map[string]int    `json:"faults"`
+	Samples        []json.RawMessage `json:"samples"`
+	Violations     []WorkerViolation `json:"violations"`
+	Known          map[string]int    `json:"known"`
+	DetChecks      int               `json:"determinism_rechecks"`
+	DetFailures    []string          `json:"determinism_failures"`
+	Irreproducible []string          `json:"irreproducible_candidates"`
+	Error          string            `json:"error,omitempty"`
 }
 
 // WorkerViolation is one reported violation with its replay file.
@@ -310,6 +315,10 @@ func Main(t *testing.T) {
 		} else {
 			cfg = DefaultSched(sc, 4000)
 		}
+		if w.Stall != nil && w.Stall(prop) {
+			// in a quarter of the runs
+			cfg.StallPm = []int{0, 0, 0, 0, 0, 0, 15, 60}[sc.Intn(8)]
+		}
 		sb, err := json.Marshal(script)
 		if err != nil {
 			t.Fatalf("script marshal: %v", err)
@@ -338,6 +347,9 @@ func Main(t *testing.T) {
 		}
 		for k, v := range res.Faults {
 			out.Faults[k] += v
+		}
+		if res.Stalls > 0 {
+			out.Faults["sched_stall_time_passes_while_runnable"] += res.Stalls
 		}
 		nontrivial := true
 		if w.Nontrivial != nil {
@@ -400,6 +412,12 @@ func Main(t *testing.T) {
 			if unknown == nil {
 				continue
 			}
+		}
+		// a violation only counts if the recorded choices reproduce it (a difference here
+		// would mean the run was influenced by something the simulator does not control)
+		if rr := execRun(t, w, script, cfg, NewReplay(ch.Seed(), ch.Rec), prop); sameViolation(rr.Violations, *unknown, known) == nil {
+			out.Irreproducible = append(out.Irreproducible, fmt.Sprintf("world=%s run=%d seed=%d %s/%s: %s", w.Name, i, runSeed, unknown.Clause, unknown.Signature, unknown.Detail))
+			continue
 		}
 		// minimise and write the replay file
 		rf := minimise(t, w, prop, tier, script, cfg, ch.Seed(), ch.Rec, *unknown, known)
@@ -515,6 +533,17 @@ func minimise(t *testing.T, w *World, prop, tier string, script any, cfg Config,
 			}
 		}
 	}
+	// final confirmation of exactly what goes into the file; fall back to the
+	// unminimised run if the minimised one does not fail (again)
+	if r, v := fails(cur, choices); v != nil {
+		best, bv = r, v
+	} else {
+		cur, choices = script, append([]uint32(nil), rec...)
+		if r, v := fails(cur, choices); v != nil {
+			best, bv = r, v
+			note = "minimisation result did not reproduce; unminimised run stored"
+		}
+	}
 	rf := &ReplayFile{Property: prop, World: w.Name, Tier: tier, Cfg: cfg, Note: note, ChoiceSeed: chSeed}
 	rf.Script, _ = json.Marshal(cur)
 	rf.ChoiceLen, rf.Choices = encodeChoices(choices)
@@ -544,6 +573,17 @@ func replayMain(t *testing.T, prop, path string) {
 	}
 	cfg := rf.Cfg
 	cfg.Debug = os.Getenv("VERIF_DEBUG") != ""
+	// diagnosing state that leaks from one run to the next inside a process: execute
+	// some generated runs first, then the replay (its hash must not depend on them)
+	for k := 0; k < envInt("VERIF_REPLAY_WARMUP", 0); k++ {
+		sc := NewChoice(uint64(1000 + k))
+		wscript := w.Gen(sc, prop, "quick")
+		wcfg := DefaultSched(sc, 4000)
+		if w.Sched != nil {
+			wcfg = w.Sched(sc, wscript)
+		}
+		execRun(t, w, wscript, wcfg, NewChoice(uint64(77+k)), prop)
+	}
 	res := execRun(t, w, script, cfg, NewReplay(rf.ChoiceSeed, decodeChoices(rf.ChoiceLen, rf.Choices)), rf.Property)
 	if cfg.Debug {
 		for _, l := range res.DebugLog {
